@@ -6,6 +6,7 @@ import ast
 import itertools
 from typing import Dict, List, Optional
 
+from ..astx import canon
 from ..astx import (
     FALSE,
     TRUE,
@@ -185,11 +186,17 @@ def c02_3(ctx: Ctx):
         spec_parts.append((name, lin.cond(e, {})))
     spec = f_or(*[p for _, p in spec_parts])
     # atoms of the code carry versions; strip them (parameters are never reassigned here)
+    # "every incoming edge is a fallthrough", with or without the block's own self-loop left out (fix F96), is one atom
+    plain = src(ast.parse("all((_is_fallthrough_edge(edge) for edge in block.incoming_edges))", mode="eval").body)
+    aliases = {
+        src(ast.parse(canon("all((_is_fallthrough_edge(edge) for edge in block.incoming_edges if edge.source is not block))"), mode="eval").body): plain,
+    }
+
     def strip(f):
         k = f[0]
         if k == "atom":
             a = f[1]
-            return ("atom", (a[0], ()))
+            return ("atom", (aliases.get(a[0], a[0]), ()))
         if k in ("not", "and", "or"):
             return (k, *[strip(x) for x in f[1:]])
         return f
